@@ -26,7 +26,8 @@ BUDGETS = {"quick": dict(VT_NMAIN=2, VT_NLINK=4, VT_NMODS=3, VT_NPARAMS=3),
            "thorough": dict(VT_NMAIN=3, VT_NLINK=5, VT_NMODS=4, VT_NPARAMS=4)}
 M_INVARIANTS = ["GenInL", "LastTokenNeeded", "TxAgrees", "NoLeak"]
 SEED_NAMES = {1: "grammar", 2: "link", 3: "modifiers*", 4: "modifiers+=", 5: "params", 6: "norules",
-              7: "reference+modifiers"}
+              7: "reference+modifiers", 8: "assign-twice(2nd repeated)", 9: "assign-twice(1st repeated)",
+              10: "assign-twice(2nd op)", 11: "assign-twice"}
 
 # tokens used as replacements / soup material: every kind, but not the compound names
 # (A.B, a-b), which a scannerless parser may split differently in foreign positions
@@ -121,6 +122,119 @@ def soups(base, rng, n):
                 t[k:k + rng.randint(0, 1)] = [rng.choice(REPL)]
         out.append(("soup", t[:40]))
     return out
+
+
+# ------------------------------------------------------------------ surface variants (rendering)
+# Other spellings of a module token with the same token kind and the same attributes (a valid
+# string match stays a valid string match, an invalid regex stays invalid ...).  The module judges
+# the token sequence; the real code gets the text with the variant spelling.
+VARIANTS = {
+    "'a'": ['"a"', "'a b'", "'it\\'s'", '"say \\"hi\\""', "'\"'", '"\'"', "'sin('", "'array['", "'pow**'",
+            "'a)'", "'x+*'", "'end.'", "'f(x)'", "'while'", "'_k1'", "'\\n'", "'\\t|'"],
+    "'n'": ['"n"', "'it\\'s'", '"a\\"b"', "'a b'", "'x('"],
+    "','": ['";"', "'\\''", "'|'", "'..'"],
+    "''": ['""'],
+    "\"b\"": ["'b'", '"b\\"c"', '"b\'c"'],
+    "'\\xzz'": ["'\\uzzzz'", "'\\N{bogus}'", '"\\xzz"', "'\\U0000zzzz'", "'a\\x4'"],
+    "/b/": ["/[a-z]+/", "/a\\/b/", "/\\d{2,3}/", "/(?i)x/", "/\\w+\\s*/", "/[^\\/]+/", "/a|b/"],
+    "/x*/": ["/a?/", "/(b|)/", "/\\s*/"],
+    "/(/": ["/[/", "/a{2,1}/", "/\\1/", "/a**/", "/(?P<n>a)(?P<n>b)/", "/(?<=a+)b/", "/(?z)a/", "/a)/",
+            "/a{99999999999999999999}/", "/\\d{4294967295}/", "/[a-z]{1,4294967296}/", "/\\p/"],
+    "x": ["_x", "x1", "été"],
+    "A": ["Abc_1", "Ä"],
+    "1b": ["1", "007x"],
+    "INTEGER": ["IDENT", "STRINGS", "BOOLEAN", "FLOATS", "NUMBERS", "BASETYPES"],
+    "l": ["l_2", "x-y-"],
+    "m": ["m_2", "a.b.c"],
+}
+STR_TOKENS = {"'a'", "'n'", "','", "''", "\"b\"", "'\\xzz'"}
+OPTION_SETS = ["autokwd", "ignore_case", "noskipws", "memoization", "autokwd+ignore_case+memoization"]
+KEYWORDS = ["import", "reference", "as", "eolterm", "parent"]
+PREFIX_OPS, SUFFIX_OPS = ["!", "&"], ["*", "+", "?", "#", "-"]
+ASSIGN_OPS = {"=", "*=", "+=", "?="}
+
+
+def _lex_class(toks, k):
+    """Purely lexical class of token k (what kind of phrase could start / end here)."""
+    t = toks[k]
+    if t[:1] in "'\"":
+        return "str"
+    if t.startswith("/") and len(t) > 1 and not t.startswith("/*") and not t.startswith("//"):
+        return "re"
+    if t in ("(", ")", "[", "]"):
+        return t
+    if t[:1].isalnum() or t[:1] == "_":
+        return "attr" if k + 1 < len(toks) and toks[k + 1] in ASSIGN_OPS else "word"
+    return "other"
+
+
+def variant_cases(pool, rng, per_variant):
+    """For every (token, variant) pair: `per_variant` texts from the pool (spread over the seeds,
+    i.e. over the positions the token can stand in) with one occurrence respelled."""
+    out = []
+    by_tok = {}
+    for b in pool:
+        for tok in set(b["toks"]) & set(VARIANTS):
+            by_tok.setdefault(tok, {}).setdefault(b.get("seed", 0), []).append(b["toks"])
+    for tok in sorted(by_tok):
+        seeds = sorted(by_tok[tok])
+        for var in VARIANTS[tok]:
+            for j in range(per_variant):
+                host = rng.choice(by_tok[tok][seeds[j % len(seeds)]])
+                occ = [k for k, t in enumerate(host) if t == tok]
+                k = rng.choice(occ)
+                shown = list(host)
+                shown[k] = var
+                out.append(dict(kind="var", toks=list(host), text=render(shown), variant=var, of=tok))
+    return out
+
+
+def op_insertions(base):
+    """A predicate before / a repeat or suppress operator after every token that can start / end an
+    expression; returned with a stratum (operator, lexical class of the neighbour) for sampling."""
+    out = []
+    for b in base:
+        t = b["toks"]
+        for k in range(len(t)):
+            c = _lex_class(t, k)
+            if c in ("attr", "word", "str", "re", "("):
+                for op in PREFIX_OPS:
+                    out.append((f"{op}<{c}", t[:k] + [op] + t[k:]))
+            if c in ("attr", "word", "str", "re", ")", "]"):
+                for op in SUFFIX_OPS:
+                    out.append((f"{c}>{op}", t[:k + 1] + [op] + t[k + 1:]))
+    return out
+
+
+def stratified(items, rng, quota):
+    """items: (stratum, value); at most `quota` per stratum (None = all), seeded choice."""
+    by = {}
+    for st, v in items:
+        by.setdefault(st, []).append(v)
+    out = []
+    for st in sorted(by):
+        vs = by[st]
+        if quota is not None and len(vs) > quota:
+            vs = rng.sample(vs, quota)
+        out += [(st, v) for v in vs]
+    return out
+
+
+def glue_cases(pool, rng, quota):
+    """A keyword token written without a blank before the following identifier-like token."""
+    import re as _re
+    items = []
+    for toks in pool:
+        for k in range(len(toks) - 1):
+            if toks[k] in KEYWORDS and _re.fullmatch(r"[\w.\-]+", toks[k + 1]):
+                parts = []
+                for j, t in enumerate(toks):
+                    parts.append(t)
+                    if j != k:
+                        parts.append("\n" if t.startswith("//") else " ")
+                items.append((toks[k], dict(kind="glue", toks=list(toks), text="".join(parts).rstrip(" "), only="C24")))
+    return [v for _, v in stratified(items, rng, quota)]
+
 
 
 def T(s):
@@ -220,12 +334,15 @@ TARGETED = [
 ]
 
 
-def build_cases(base, rng, tier):
-    """The corpus as a list of dicts(id, toks, kind[, text, kw]); duplicates removed."""
+def build_cases(base, rng, tier, prop=None):
+    """The corpus as a list of dicts(id, toks, kind[, text, kw]); duplicates removed.
+    `prop` drops the cases meant for the other property only."""
     quick = tier == "quick"
     cases, seen = [], set()
 
     def add(kind, toks, **extra):
+        if extra.get("only") and prop and extra["only"] != prop:
+            return
         key = (tuple(toks), extra.get("text"), extra.get("kw"))
         if key in seen:
             return
@@ -237,18 +354,44 @@ def build_cases(base, rng, tier):
     for b in base:
         add("gen", b["toks"], seed=b["seed"])
     muts = mutants(base, rng, per_pos_repl=1 if quick else 2, full_matrix=0 if quick else 60)
-    total_mut = len(muts)
+    ins = op_insertions(base)
+    total_mut = len(muts) + len(ins)
     if quick:
         # deterministic sample: every generated text stays, mutants are thinned by seed
-        muts = rng.sample(muts, min(len(muts), 4200))
+        muts = rng.sample(muts, min(len(muts), 3600))
+        ins_quota = 22
     else:
         cap = int(os.environ.get("VT_MG_CAP", "250000"))     # thorough: all of them (the cap is a safety net)
         if len(muts) > cap:
             muts = rng.sample(muts, cap)
+        ins_quota = max(22, min(1500, cap // 40))
     for kind, toks in muts:
         add(kind, toks)
+    # operator insertions: same number from every (operator, neighbour class) stratum
+    for _, toks in stratified(ins, rng, ins_quota):
+        add("ins", toks)
     for kind, toks in soups(base, rng, 400 if quick else 6000):
         add(kind, toks)
+    # surface variants: every variant spelling in texts from every seed that has the token
+    pool = base + [dict(toks=t["toks"], seed=0) for t in TARGETED if t.get("text") is None and not t.get("kw")]
+    variants = variant_cases(pool, rng, per_variant=4 if quick else 16)
+    for v in variants:
+        add("var", v.pop("toks"), **{k: x for k, x in v.items() if k != "kind"})
+    # metamodel options (C23): string / regex variants under every option set, plus a sample of the rest
+    if prop != "C24":
+        strv = [c for c in cases if c["kind"] == "var" and (c["of"] in STR_TOKENS or c["of"].startswith("/"))]
+        for c in strv:
+            for o in (OPTION_SETS if not quick else ["autokwd", OPTION_SETS[-1], rng.choice(OPTION_SETS[1:4])]):
+                add("opt", c["toks"], text=c["text"], kw=o, only="C23")
+        rest = [c for c in cases if c["kind"] in ("gen", "tgt") and not c.get("kw")]
+        for c in rng.sample(rest, min(len(rest), 300 if quick else 3000)):
+            add("opt", c["toks"], kw=rng.choice(OPTION_SETS), only="C23",
+                **({"text": c["text"]} if c.get("text") is not None else {}))
+    # keyword glued to the following word (C24: both parsers take keywords as prefixes)
+    if prop != "C23":
+        gpool = [b["toks"] for b in base] + [toks for _, toks in muts[:6000]]
+        for g in glue_cases(gpool, rng, 40 if quick else 1500):
+            add("glue", g["toks"], text=g["text"], only="C24")
     return cases, total_mut
 
 
@@ -323,7 +466,17 @@ def _kwargs(kw):
     if kw == "used_class":
         cls = type("A", (), {"__init__": lambda self, **k: None})
         return dict(classes=[cls])
-    return {}
+    out = {}
+    for o in (kw or "").split("+"):
+        if o == "autokwd":
+            out["autokwd"] = True
+        elif o == "ignore_case":
+            out["ignore_case"] = True
+        elif o == "noskipws":
+            out["skipws"] = False
+        elif o == "memoization":
+            out["memoization"] = True
+    return out
 
 
 def _observe_mm(text, kw):
